@@ -88,19 +88,19 @@ func (dg *Defgeneric) reorg(edge int) int {
 func (dg *Defgeneric) adjoin(b []byte) []byte {
 	b = append(b, "(defgeneric"...)
 	if dg.name.newline() {
-		b = append(b, indent[:dg.name.left()+1]...)
+		b = newlineIndent(b, dg.name.left())
 	} else {
 		b = append(b, ' ')
 	}
 	b = dg.name.adjoin(b)
 	if dg.ll.newline() {
-		b = append(b, indent[:dg.ll.left()+1]...)
+		b = newlineIndent(b, dg.ll.left())
 	} else {
 		b = append(b, ' ')
 	}
 	b = dg.ll.adjoin(b)
 	for _, n := range dg.children {
-		b = append(b, indent[:n.left()+1]...)
+		b = newlineIndent(b, n.left())
 		b = n.adjoin(b)
 	}
 	return append(b, ')')
